@@ -156,6 +156,54 @@ def check_program(g, leaf, derived, ctx, rng):
     return problems
 
 
+SEED_CODE = r"""
+import sys, warnings
+warnings.simplefilter("ignore")
+import numpy as np, dask
+dask.config.set(scheduler="sync")
+import dask_array as da
+s, n, c, dist = int(sys.argv[1]), int(sys.argv[2]), int(sys.argv[3]), sys.argv[4]
+def draw():
+    f = getattr(da.random, dist)
+    return (f(size=n, chunks=c) if dist != "randint" else f(0, 50, size=n, chunks=c)).compute()
+da.random.seed(s)          # seeding before anything was drawn in this interpreter
+a1 = draw(); b1 = draw()
+da.random.seed(s)
+a2 = draw(); b2 = draw()
+print("SEEDED", bool(np.array_equal(a1, a2)), bool(np.array_equal(b1, b2)), bool(np.array_equal(a1, b1)) if n > 3 else False)
+"""
+
+
+def module_seed_case(rng, ctx, problems):
+    """da.random.seed(s) in a fresh interpreter: the first seeded array is the realization that seed reproduces later."""
+    import os
+    import subprocess
+
+    from vf.common import PY, REPO, VERIF
+
+    s, n, c = rng.randrange(10**6), rng.randint(4, 12), rng.randint(1, 4)
+    dist = rng.choice(["random", "normal", "standard_normal", "randint"])
+    env = dict(os.environ)
+    env["PYTHONPATH"] = f"{VERIF}:{REPO}"
+    try:
+        p = subprocess.run([PY, "-c", SEED_CODE, str(s), str(n), str(c), dist], capture_output=True, text=True, timeout=120, env=env, cwd=VERIF)
+    except subprocess.TimeoutExpired:
+        ctx.count("module_seed_timeouts")
+        return
+    line = [l for l in p.stdout.splitlines() if l.startswith("SEEDED")]
+    if not line:
+        ctx.tab("module_seed_child_failed", (p.stderr.strip().splitlines() or ["?"])[-1][:80])
+        return
+    ctx.count("module_seed_cases")
+    ctx.count("realization_checks", 2)
+    _, same_a, same_b, same_ab = line[0].split()
+    desc = {"seed": s, "n": n, "chunks": c, "dist": dist}
+    if same_a != "True" or same_b != "True":
+        problems.append(("reseeding_gives_other_values", f"da.random.seed({s}); x = da.random.{dist}(...) in a fresh interpreter, then seed({s}) again: first array equal {same_a}, second equal {same_b}: {desc}", "module_seed:reseeding_differs"))
+    if same_ab == "True":
+        problems.append(("successive_draws_equal", f"two successive module-level draws after seed({s}) are identical: {desc}", "module_seed:successive_draws_equal"))
+
+
 def fails_on_numpy_leaf_too(g, leaf, v):
     """Re-run the derived program over from_array(V) with the same chunks: a failure there is the op's defect, not the randomness."""
     from vf.gen import literal_step
@@ -184,6 +232,12 @@ def _raw(x):
 
 def run_one(rng, ctx):
     big = ctx.tier == "thorough"
+    if rng.random() < 0.02:
+        problems = []
+        module_seed_case(rng, ctx, problems)
+        for kind, msg, mech in problems:
+            ctx.violation(kind, msg, case={"module_seed": True}, mech=mech)
+        return
     if rng.random() < 0.15:
         problems = []
         desc = gen_choice_desc(rng)
@@ -230,6 +284,12 @@ def run_one(rng, ctx):
 
 
 def replay_case(case, ctx):
+    if "module_seed" in case:
+        problems = []
+        module_seed_case(random.Random(0), ctx, problems)
+        for kind, msg, mech in problems:
+            ctx.violation(kind, msg, case=case, mech=mech)
+        return
     if "choice" in case:
         problems = []
         choice_case(case["choice"], ctx, problems)
